@@ -87,11 +87,22 @@ def placements():
     P["remat_in_scan"] = lambda m: jax.lax.scan(lambda c, _: (jax.checkpoint(site)(c), c), m, None, length=2)[0]
     P["while_in_jit"] = lambda m: jax.jit(P["while_loop"])(m)
     P["grad_in_scan"] = lambda m: jax.lax.scan(lambda c, _: (jax.grad(lambda x: x * site(x))(c), c), m, None, length=2)[0]
+    # sites that went through the modular_vmap batching rule (rebound primitives), alone in the compiled program
+    from genjax import modular_vmap, gen
+
+    @gen
+    def lane_model(mu):
+        return normal(mu, 1.0) @ "x"
+    P["modular_vmap_in_jit"] = lambda m: jax.jit(lambda x: modular_vmap(site)(jnp.stack([x, x * 2.0])))(m)
+    P["modular_vmap_axis_size_in_jit"] = lambda m: jax.jit(lambda x: modular_vmap(lambda: site(x), in_axes=(), axis_size=2)())(m)
+    P["vmap_combinator_in_jit"] = lambda m: jax.jit(lambda x: lane_model.vmap(in_axes=(0,)).simulate(jnp.stack([x, x * 2.0])).get_retval())(m)
+    P["modular_vmap_in_scan"] = lambda m: jax.lax.scan(lambda c, _: (jnp.sum(modular_vmap(site)(jnp.stack([c, c]))), c), m, None, length=2)[0]
     return P
 
 
 COMPILING = {"jit", "scan", "while_loop", "fori_loop", "fori_loop_dynamic", "cond", "switch", "map", "jit_in_jit", "scan_in_cond",
-             "cond_in_scan", "jit_in_scan", "remat_in_scan", "while_in_jit", "grad_in_scan"}
+             "cond_in_scan", "jit_in_scan", "remat_in_scan", "while_in_jit", "grad_in_scan", "modular_vmap_in_jit",
+             "modular_vmap_axis_size_in_jit", "vmap_combinator_in_jit", "modular_vmap_in_scan"}
 
 
 def groups(tier, seed):
